@@ -69,6 +69,7 @@ type Contract struct {
 	CallMods     []Clause
 	CallRequires []Clause
 	callView     *Contract
+	Splits        []Clause // `split E`: every obligation is proved once under E and once under !E (entry state)
 	AssumePure    []string // callees without contract assumed not to panic and to have no heap effect
 	Abstract   bool  // body translated with havoc tolerance; only listed obligations
 	Uses       map[string]bool
@@ -84,7 +85,7 @@ type Contract struct {
 
 var clauseKW = map[string]bool{"requires": true, "ensures": true, "modifies": true, "nopanic": true, "maypanic": true,
 	"panics_when": true, "trusted": true, "pure": true, "noalloc": true, "mayalloc": true, "terminates": true, "decreases": true, "alloc": true,
-	"loop": true, "at": true, "func": true, "extern": true, "pkg": true, "uses": true, "abstract": true, "unreachable": true, "lemma": true, "lemma_ret": true, "pred": true, "global": true, "assume_nopanic": true, "assume_pure": true}
+	"loop": true, "at": true, "func": true, "extern": true, "pkg": true, "uses": true, "abstract": true, "unreachable": true, "lemma": true, "lemma_ret": true, "pred": true, "global": true, "assume_nopanic": true, "assume_pure": true, "split": true}
 
 var reImp = regexp.MustCompile(`<==>|==>`)
 
@@ -425,6 +426,12 @@ func (c *Contract) addClause(kw, rest, path string, line int) error {
 		} else {
 			c.LemmasRet = append(c.LemmasRet, cl)
 		}
+	case "split":
+		cl, err := mkClause(rest, path, line)
+		if err != nil {
+			return err
+		}
+		c.Splits = append(c.Splits, cl)
 	case "assume_pure":
 		c.AssumePure = append(c.AssumePure, strings.TrimSpace(rest))
 	case "assume_nopanic":
